@@ -114,8 +114,22 @@ FLOATS = [0.0, -0.0, 1.5, -2.25, 1e100, float("inf"), float("nan"), 0.1, 3.0]
 
 
 class Gen:
-    def __init__(self, rng):
+    def __init__(self, rng, subs=False):
         self.r = rng
+        self.subs = subs        # also user-defined container subclasses (oracle only: outside the Coq pickle model)
+
+    def sub(self, d, base=None, hashable=False):
+        """instance of a class 1-3 levels below a builtin container"""
+        r = self.r
+        base = base or r.choice(["set", "set", "set", "fset", "dict", "list", "tuple"])
+        n = r.choice([0, 1, 2, 3, 4, 5])
+        if base in ("set", "fset"):
+            payload = [base, self.elems(d - 1, n)]
+        elif base == "dict":
+            payload = ["dict", [[self.hashable(d - 1), self.value(d - 1)] for _ in range(n)]]
+        else:
+            payload = [base, [(self.hashable if hashable else self.value)(d - 1) for _ in range(n)]]
+        return ["sub", base, r.choice([1, 2, 2, 3]), payload]
 
     def atom(self, kinds="nbifsy"):
         r = self.r
@@ -138,6 +152,8 @@ class Gen:
             return self.atom(kinds)
         k = r.random()
         n = r.choice([0, 1, 2, 2, 3, 4])
+        if self.subs and r.random() < 0.08:
+            return self.sub(d, r.choice(["fset", "tuple"]), hashable=True)
         if k < 0.45:
             return ["tuple", [self.hashable(d - 1, kinds) for _ in range(n)]]
         if k < 0.8:
@@ -166,6 +182,8 @@ class Gen:
             return self.atom()
         k = r.random()
         n = r.choice([0, 1, 2, 2, 3, 4, 5])
+        if self.subs and r.random() < 0.1:
+            return self.sub(d)
         if k < 0.2:
             return ["list", [self.value(d - 1) for _ in range(n)]]
         if k < 0.3:
@@ -185,6 +203,8 @@ class Gen:
     def top(self):
         r = self.r
         k = r.random()
+        if self.subs and r.random() < 0.25:
+            return self.sub(r.randint(1, 3))
         if k < 0.3:
             return ["set", self.elems(r.randint(0, 2), r.choice([0, 1, 2, 3, 4, 6, 9]))]
         return self.value(r.randint(0, 3))
@@ -210,7 +230,19 @@ STABLE_FIXED = [   # must be stable in every variant
 ]
 
 
+ABCD = [S("alpha"), S("beta"), S("gamma"), S("delta")]
+SUB_STABLE = (   # user-defined classes 1, 2, 3 levels below the builtin containers: stable in every variant
+    [["sub", "set", d, ["set", ABCD]] for d in (1, 2, 3)]
+    + [["sub", "set", d, ["set", [["i", "0"], ["i", "8"], ["i", "16"]]]] for d in (1, 2, 3)]
+    + [["sub", b, d, [b, [S("a"), ["i", "1"]]]] for b in ("list", "tuple") for d in (1, 2, 3)]
+    + [["sub", "dict", d, ["dict", [[S("k"), ["i", "1"]], [S("j"), ["n"]]]]] for d in (1, 2, 3)]
+    + [["sub", "fset", d, ["fset", [S("a")]]] for d in (1, 2, 3)])
+
+
 def spec_nodes(spec, top=True):
+    if spec[0] == "sub":        # an instance of a subclass is judged like the container it derives from
+        yield from spec_nodes(spec[3], top)
+        return
     yield spec, top
     t = spec[0]
     if t in ("list", "tuple", "set", "fset") or t in cv.CLASSES:
@@ -230,6 +262,8 @@ def in_class_iter(spec):
 
 
 def in_class_partial(spec):
+    while spec[0] == "sub":
+        spec = spec[3]
     if spec[0] != "set" or len(spec[1]) < 2:
         return False
     return any((s[0] == "fset") or (s[0] == "f" and math.isnan(float.fromhex(s[1]))) for s, top in spec_nodes(spec) if not top)
@@ -301,7 +335,8 @@ class Check(PropertyCheck):
     theorems = ["C16_refuted_nested_set", "C16_refuted_frozenset", "C16_refuted_dict_value", "C16_refuted_set_of_tuples",
                 "C16_refuted_digest", "C16_shipped_setfree_partial", "C16_shipped_int_set_partial",
                 "C16_order_independent_fixed", "C16_digest_fixed", "C16_veq_sym", "C16_wf_invariant",
-                "C16_fixed_preserves_setfree", "C16_nonvacuous"]
+                "C16_fixed_preserves_setfree", "C16_dispatch_history_independent",
+                "C16_dispatch_bases_only_refuted", "C16_nonvacuous"]
     extra_modules = ["Base.Lit"]
     allowed_axioms = []
     section_premises = [
@@ -329,7 +364,9 @@ class Check(PropertyCheck):
             "(tag + pickle bytes) of the real get_hash vs the Coq model under the regenerated configuration, bit-exact; "
             "oracle: every spec hashed in 5 interpreter processes (PYTHONHASHSEED 0-4) x 3 insertion orders, by "
             "TypeRegistry.get_hash and by RedunBackendDb.record_value (in-memory sqlite; the hash recorded for task "
-            "arguments/results), which must agree; "
+            "arguments/results), which must agree; instances of user-defined classes 1-3 levels below set/frozenset/dict/"
+            "list/tuple (top-level and nested), each hashed in a process that has not seen its parent classes and "
+            "again after instances of them were hashed; "
             "non-trivial = contains a container; distinct by spec")
 
     # ---------------------------------------------------------------- translate
@@ -343,7 +380,9 @@ class Check(PropertyCheck):
         GEN.mkdir(exist_ok=True)
         p = GEN / "C16Gen.v"
         p.write_text(text)
-        return [p]
+        q = GEN / "C16Tie.v"
+        q.write_text(info["tie"])
+        return [p, q]
 
     # ---------------------------------------------------------------- correspondence
     def observe(self, v):
@@ -449,6 +488,11 @@ class Check(PropertyCheck):
                     "RedunBackendDb.record_value(v) (the hash recorded for task arguments/results) differs from "
                     f"TypeRegistry.get_hash(v); {len(distinct)} distinct (get_hash|recorded) outcomes across "
                     f"processes/insertion orders, e.g. {rec[0]}")
+        hist = [r for r in distinct if "|after-parents:" in r]
+        if hist:
+            return (f"dispatch-depends-on-history:{sj}",
+                    "the hash of one value changes within a process once instances of the parent classes of its "
+                    f"class were hashed (outcome before|after-parents:outcome after): {hist[0]}")
         if len(distinct) == 1:
             return None
         raises = [r for r in distinct if r.startswith("raise:")]
@@ -465,9 +509,9 @@ class Check(PropertyCheck):
         return (f"unstable:{sj}", f"{len(distinct)} different hashes for one value outside the known defect classes")
 
     def oracle(self):
-        g = Gen(self.rng)
+        g = Gen(self.rng, subs=True)
         n = 400 if self.tier == "quick" else 8000
-        specs = [w[1] for w in WITNESSES] + STABLE_FIXED + list(getattr(self, "mismatch_specs", []))[:20]
+        specs = [w[1] for w in WITNESSES] + STABLE_FIXED + SUB_STABLE + list(getattr(self, "mismatch_specs", []))[:20]
         corpus = CORPUS / "C16.jsonl"
         if corpus.exists():
             specs += [json.loads(l)["spec"] for l in corpus.read_text().splitlines() if l.strip()]
@@ -491,6 +535,7 @@ class Check(PropertyCheck):
             self.stat("oracle_unstable", key.split(":")[0] + ":" + (key.split(":")[1] if key.startswith("shipped") else "other"))
             self.findings.append(Finding(key, what, {
                 "kind": "unstable", "spec": sp, "hash_seeds": seeds, "orders": ORDERS,
+                "distinct_outcomes": len(set(outcomes)),
                 "outcomes": {f"PYTHONHASHSEED={k[0]},order={k[1]}": res[k][i] for k in keys[:8]},
                 "how": "PYTHONPATH=/repo:/verif python -c 'from harness.props import c16_values as m; "
                        "print(m.hash_all([SPEC],[None,1,2]))' under different PYTHONHASHSEED; an outcome "
@@ -505,7 +550,8 @@ class Check(PropertyCheck):
         elif self.variant == "fixed":
             self.ob("oracle", "the refutation witnesses of the shipped variant are stable on the repaired code",
                     not any(unstable_w), str([w[0] for w, u in zip(WITNESSES, unstable_w) if u]))
-        self.findings.sort(key=lambda f: len(json.dumps(f.replay.get("spec", ""))))   # report the smallest input
+        # report first an input whose outcome also differs between processes / insertion orders, smallest first
+        self.findings.sort(key=lambda f: (f.replay.get("distinct_outcomes", 1) < 3, len(json.dumps(f.replay.get("spec", "")))))
         new = [f for f in self.findings if f.key not in (K_ITER, K_PARTIAL)]
         self.ob("oracle", f"implementation oracle: {len(specs)} values x {len(keys)} (process, insertion order) pairs, get_hash and "
                 f"record_value (recorded hash == get_hash everywhere); "
@@ -520,7 +566,7 @@ class Check(PropertyCheck):
             res = run_children([r["spec"]], r.get("hash_seeds", HASH_SEEDS))
             outs = sorted({v[0] for v in res.values()})
             print("replay:", json.dumps(r["spec"])[:300], "->", outs[:6])
-            bad = len(outs) > 1 or any("|recorded:" in o for o in outs)
+            bad = len(outs) > 1 or any("|recorded:" in o or "|after-parents:" in o for o in outs)
             print("replay:", "still fails (different outcomes for one value, or recorded hash != get_hash)" if bad
                   else "holds now")
             return 1 if bad else 0
